@@ -34,3 +34,25 @@ def replay(want, reads):
     if out.get('result') != 'err' or out.get('kind') != 'UnexpectedEof':
         bad.append('a stream that ends inside the frame must give UnexpectedEof: %s' % dict(out))
     return {'replayed': bool(bad), 'detail': 'native read_n_bytes over fragmented streams: %s ; %d splits tried' % (bad, len(splits)), 'replay': {'which': 'stream', 'want': want, 'reads': list(reads)}}
+
+
+def replay_reader(result=None):
+    """the real SessionReader actor over scripted streams: every valid frame in front of the fault reaches the session however the stream is cut, the fault stops
+    the reader (and only the reader)"""
+    bad, obs = [], {}
+    cases = [('eof_between_frames', 2, [], 2), ('eof_inside_header', 2, [0, 0, 0], 2), ('eof_inside_payload', 1, [0, 0, 0, 0, 0, 0, 0, 9, 1, 2], 1),
+             ('over_long_frame', 2, [255] * 8 + [1, 2, 3], 2), ('undecodable_frame', 1, [0, 0, 0, 0, 0, 0, 0, 2, 255, 255], 1), ('no_fault', 3, [], 3)]
+    for label, good, tail, want in cases:
+        for piece in (1, 3, 7, 4096):
+            out, _l, rc, err = native.run('reader_actor', good=good, tail=tail, piece=piece, max=65536, timeout=30)
+            if rc != 0:
+                raise RuntimeError('native reader_actor failed: ' + err[-300:])
+            out = dict(out)
+            obs['%s/%d' % (label, piece)] = out
+            if out.get('frames') != str(want):
+                bad.append('%s, pieces of %d: %s of %d valid frames reached the session' % (label, piece, out.get('frames'), want))
+            if out.get('reader_status') != 'Stopped':
+                bad.append('%s, pieces of %d: the reader is %s after the stream ended' % (label, piece, out.get('reader_status')))
+            if out.get('session_alive') != '1':
+                bad.append('%s, pieces of %d: the session actor did not survive' % (label, piece))
+    return {'replayed': bool(bad), 'detail': 'native SessionReader over scripted streams: %s' % (bad[:4] or 'no violation in %d runs' % len(obs)), 'replay': {'which': 'reader_actor'}}
